@@ -110,7 +110,7 @@ def _cases(which, hostile=True):
 
 
 def phases(tier):
-    n_ac, n_other = (6000, 2000) if tier == "quick" else (500000, 100000)
+    n_ac, n_other = (6000, 2000) if tier == "quick" else (200000, 40000)
     return [
         Phase("long-documents", "enum", items=lambda: _long_items(tier), exhaustive=True, distinct=True, chunk=4),
         Phase("docs-ac", "gen", strategy=lambda: _cases("ac"), n=n_ac),
